@@ -102,24 +102,13 @@ fn to_py(core: &Core, ind: usize) -> String {
             ty,
             body,
         } => {
-            let dec: Vec<Core> = dec
+            // the block this definition stands in has already indented the first line
+            let dec: String = dec
                 .iter()
-                .map(|d| Core::Id {
-                    lit: format!("@{d}"),
-                })
+                .map(|d| format!("@{d}\n{}", indent(ind)))
                 .collect();
             format!(
-                "{}{}def {id}({}){}: {}\n",
-                if dec.is_empty() {
-                    String::from("")
-                } else {
-                    newline_delimited(&dec, ind - 1)
-                },
-                if dec.is_empty() {
-                    String::from("")
-                } else {
-                    indent(ind)
-                },
+                "{dec}def {id}({}){}: {}\n",
                 comma_delimited(arg, ind),
                 if let Some(ret_ty) = ty {
                     format!(" -> {}", to_py(ret_ty.as_ref(), ind))
